@@ -87,6 +87,20 @@ def run(ctx):
             if r != rs[0] or not r.startswith("OK "):
                 ctx.fail("two spellings of one document (member names written with / without escapes) are not given the same shape",
                          "from_str\t" + hx(t), {"text_a": texts[0][:300], "text_b": t[:300], "result_a": rs[0][:200], "result_b": r[:200]})
+    # names that NEED an escape (quote, backslash, control characters; a literal backslash followed by n / t / u0041 / "):
+    # every spelling must be read as the one name it denotes (expected shape computed from the names, not from either run)
+    for names in vlib.escape_name_sets():
+        exp, texts = vlib.escape_name_texts(ctx.rng, names)
+        rs = ctx.impl(["from_str\t" + hx(t) for t in texts])
+        n_sp += len(texts)
+        for t, r in zip(texts, rs):
+            if r != "OK " + exp:
+                ctx.fail("a spelling of a member name that needs escapes is not read as the name it denotes "
+                         "(two spellings of one document are not given the same shape)",
+                         "from_str\t" + hx(t), {"text": t[:300], "result": r[:300], "expected": "OK " + exp[:300],
+                                                 "canonical_spelling": texts[0][:300], "canonical_result": rs[0][:300]})
+            else:
+                ctx.nontrivial.add("from_str\t" + hx(t))
     ctx.notes["respelled_name_pairs"] = n_sp
     # very long homogeneous arrays / wide objects: the repetition count must not matter at any scale
     big = []
